@@ -50,6 +50,11 @@ CHECKS = {
    technique="TLA+ model with explicit map-iteration nondeterminism (Determinism.tla): TLC shows confluence under sorted iteration and its failure under map iteration, and lists every (root, type set, registration order); all of them observed on the real code by repetition, fresh processes and all orders",
    text="Determinism.tla makes every range-over-map an explicit choice; with Iteration=\"sorted\" TLC proves Confluent over all roots x <=3 of 6 types x all registration orders (942 states), with \"map\" it produces the counterexample (negative control) and marks the order-sensitive configurations. Each configuration and ~600-4000 texts for the enum, regex, JSON-document, guessing and schema entry points are observed R times in-process and in P worker processes; error (code, message, index, line, column, offending type), Len, AST, example, used types, OpenAPI, enum values, lexeme streams are compared byte-for-byte across repetitions, processes and registration orders.",
    note="Map orders and heap addresses cannot be enumerated: a 2-way order dependence survives R repetitions with probability 2^(1-R) (R >= 40 per process on sensitive configurations). Type catalogue of six types."),
+ "C06": dict(
+   category="model_checking", design_ref="DESIGN.md §3 C06",
+   technique="TLA+ type-reference graphs (TypeGraph.tla): TLC checks SelfRequiring => ~Finite on every graph and emits each graph with both predicates; graphs printed as projects and replayed (Check 104 iff demanded, Example terminates with valid JSON)",
+   text="TypeGraph.tla defines Finite (least fixpoint, choices are OR) and SelfRequiring (root reaches itself through mandatory plain references) over graphs of 3 types with up to 2 properties out of 16 kinds, and rings with chords of 4-6 types; TLC checks the theorem and fixpoint lemmas on all of them (42k quick, ~2.6M thorough) and emits every graph. Every graph with a cycle or an infinite/self-requiring root (others sampled) is printed as a project with the root registered under its own name: Check() must not return 104 when the root is finite, must return it when the root is self-requiring, and Example() of an accepted project must return RFC 8259 JSON within 5 s.",
+   note="Key-shortcut properties are not edges. Nothing is demanded for infinite roots that are not self-requiring through plain references. The printer and the 104 classification (error code) are trusted."),
 }
 
 REASON_PENDING = "check not built yet in this round (design in DESIGN.md §3); no claim is made"
